@@ -145,3 +145,17 @@ Theorem C11_topup_generated :
       K_subtop_TopUp (subtop_state true x true (bget (c_bank s) creator) (bget (c_bank s) (sub_addr x)) (c_now s)) (map glb_of locks) = None)).
 Proof. split; [exact gen_TopUp|exact model_sub_topup]. Qed.
 Print Assumptions C11_topup_generated.
+
+From Sge Require Import Proofs.SubExact.
+(* PARTIAL (the full clause "exactly equal when nobody sent it tokens directly" over all histories stays a per-run check): exactness —
+   every registered subaccount's bank balance EQUALS deposited - withdrawn - spent - lost — is kept by every list of settlement effects made
+   of plain payments between ordinary accounts and payment-plus-hook groups (win with the profit forwarded to the owner, loss, refund, fee
+   refund), in particular by the settlement of any participation of a market created by an ordinary account.  Missing for the full statement:
+   the invariant that market and bet creators are ordinary accounts, and exact versions of the house deposit / withdrawal and wager cores. *)
+Theorem C11_exact_partial :
+  (forall effs, balanced_x effs -> forall bk subs bk' subs',
+     apply_effects bk subs effs = Some (bk', subs') -> exact bk subs -> exact bk' subs') /\
+  (forall p st creator p' effs bk subs bk' subs', creator < SUBBASE ->
+     settle_participation p st creator = Some (p', effs) -> apply_effects bk subs effs = Some (bk', subs') -> exact bk subs -> exact bk' subs').
+Proof. split; [exact apply_effects_exact|exact settle_participation_exact]. Qed.
+Print Assumptions C11_exact_partial.
